@@ -191,7 +191,6 @@ let () =
         let msg ns nr rep rm = NMsg ({ m_tid_ok = true; m_pkt = data ns nr; m_replies = rep; m_removes = rm }, Z0) in
         let n0 = { n_known = true; n_ep = new_endpoint Z0 Z0 Z0 Z0 (zi 16) Z0 Z0 } in
         let n = node_run n0 [msg 0 0 [(zi 1, Z0)] false; msg 1 1 [] false; msg 2 1 [] true] in
-        let n = if zlb_recv then n else node_step n (NTick (zi 200)) in
         let nr = n.n_ep.e_ch.c_nr in
         let acked = List.exists (fun q -> q.k_nr = nr && iz nr = 3) n.n_ep.e_sent in
         Printf.printf "stopccn nr=%d acked=%d\n" (iz nr) (if acked then 1 else 0)
